@@ -35,6 +35,8 @@ def cases(res):
     add(1, {})
     add(2, {"hierarchical_levels": 0})
     add(30, {"hierarchical_levels": 5, "intra_period_length": -1})
+    # longer than the 2048-slot packetization queue: every slot (and whatever state hangs off it) is used a second time
+    add(2100, {"intra_period_length": -1, "logical_processors": 8}, args=["--content", "pan"])
     # boundary hunt for the leb128 size fields: many small frames so that OBU payloads of exactly 127 / 128 bytes occur
     for qp in (range(22, 64, 3) if res.tier == "quick" else range(16, 64)):
         add(160 if res.tier == "quick" else 220, {"qp": qp, "enable_qp_scaling_flag": 1, "logical_processors": 2, "intra_period_length": -1},
